@@ -142,12 +142,41 @@ func Authenticate(ab *authboss.Authboss, w http.ResponseWriter, req **http.Reque
 	}
 
 	*req = (*req).WithContext(context.WithValue((*req).Context(), authboss.CTXKeyPID, pid))
+	// The session values queued below only reach the client with the response.
+	// Make this very request see them too, so that it is already treated as
+	// half-authenticated (authboss.IsFullyAuthed reads the session state).
+	state, _ := (*req).Context().Value(authboss.CTXKeySessionState).(authboss.ClientState)
+	*req = (*req).WithContext(context.WithValue((*req).Context(), authboss.CTXKeySessionState,
+		halfAuthedState{ClientState: state, pid: pid}))
 	authboss.PutSession(w, authboss.SessionKey, pid)
 	authboss.PutSession(w, authboss.SessionHalfAuthKey, "true")
 	authboss.DelCookie(w, authboss.CookieRemember)
 	authboss.PutCookie(w, authboss.CookieRemember, token)
 
 	return nil
+}
+
+// halfAuthedState overlays the session state of the request that was just
+// authenticated by a remember cookie with the values Authenticate queued for
+// the response.
+type halfAuthedState struct {
+	authboss.ClientState
+	pid string
+}
+
+// Get reports the session user and the half-auth mark, and defers to the
+// session state that was read at the start of the request for everything else.
+func (h halfAuthedState) Get(key string) (string, bool) {
+	switch key {
+	case authboss.SessionKey:
+		return h.pid, true
+	case authboss.SessionHalfAuthKey:
+		return "true", true
+	}
+	if h.ClientState == nil {
+		return "", false
+	}
+	return h.ClientState.Get(key)
 }
 
 // AfterPasswordReset is called after the password has been reset, since
